@@ -30,6 +30,7 @@ class EngineError(BaseException):
 # --------------------------------------------------------------------------- context
 
 CUR = None          # the active Ctx
+MULU = z3.Function('mulU', z3.RealSort(), z3.RealSort(), z3.RealSort())
 
 
 class Path(object):
@@ -52,7 +53,7 @@ class Path(object):
 
 class Ctx(object):
     def __init__(self, pre, max_decisions=300, timeout_ms=20000, trig=None, check_div0=True,
-                 track_sites=False, max_paths=5000):
+                 track_sites=False, max_paths=5000, opaque_mul=False):
         self.pre = list(pre) if isinstance(pre, (list, tuple)) else [pre]
         self.max_decisions = max_decisions
         self.timeout_ms = timeout_ms
@@ -60,6 +61,7 @@ class Ctx(object):
         self.check_div0 = check_div0
         self.track_sites = track_sites
         self.max_paths = max_paths
+        self.opaque_mul = opaque_mul
         self.nq = 0
         self.t_solver = 0.0
         self.unknown_feas = 0
@@ -377,7 +379,7 @@ class Num(object):
     def scaled_var(name, den, lo=None, hi=None):
         """a float-typed value  N/den  with symbolic integer N  (e.g. a time of day in ms)"""
         iv = (Fr(lo), Fr(hi)) if lo is not None and hi is not None else None
-        return Num('q', z3.Int(name), den, ty=float, iv=iv)
+        return Num('q', z3.Int(name), den, ty=float, iv=iv, tree=('S',))
 
     # -- views
     def cval(self):
@@ -414,6 +416,9 @@ class Num(object):
             if c is not None:
                 return ('C', float(int(c))) if abs(c) < 2 ** 53 else None
             return ('L', _leaf(self))
+        if self.tree == ('S',):
+            # a scaled input variable N/D: the double nearest to N/D, i.e. fl(N)/fl(D) rounded once
+            return ('/', ('L', _leaf(Num('q', self.n, 1, ty=int, iv=iv_mulc(self.iv, Fr(self.d))))), ('C', float(self.d)))
         return self.tree
 
     # -- arithmetic
@@ -482,11 +487,20 @@ class Num(object):
                 D = a.d * den
                 g = math.gcd(abs(num), D)
                 return Num('q', a.n * (num // g), D // g, ty=ty, iv=iv_mulc(a.iv, c), tree=tr)
+            if CUR is not None and CUR.opaque_mul:
+                return Num('r', e=s.re(), ty=s.ty).__mul__(Num('r', e=o.re(), ty=o.ty))
             return Num('q', s.n * o.n, s.d * o.d, ty=ty, iv=iv_mul(s.iv, o.iv), tree=tr)
         ang = None
         if s.ang is not None or o.ang is not None:
             from . import trig
             ang = trig.ang_mul(s, o)
+        if CUR is not None and CUR.opaque_mul and s.cval() is None and o.cval() is None:
+            # uninterpreted-product abstraction: product of two non-constant terms becomes mulU(a, b);
+            # congruence keeps equal operands giving equal products, nothing else is known about it
+            a, b = s.re(), o.re()
+            if a.get_id() > b.get_id():
+                a, b = b, a
+            return Num('r', e=MULU(a, b), ty=ty)
         return Num('r', e=s.re() * o.re(), ty=ty, ang=ang)
 
     def __rmul__(s, o):
